@@ -261,6 +261,19 @@ def _declared(ptype, tag):
     return _child_type[k]
 
 
+def declared_type(el):
+    """The schema type `el` is declared with where it stands (None when the chain of declarations breaks, e.g. under xsd:any)."""
+    chain = [el]
+    while chain[-1].getparent() is not None:
+        chain.append(chain[-1].getparent())
+    t = xsdkit.model().global_elems.get(chain[-1].tag)
+    for node in reversed(chain[:-1]):
+        if t is None:
+            return None
+        t = _declared(t, node.tag)
+    return t
+
+
 def parent_type(el):
     """The complex type `el` is declared with WHERE IT STANDS (global element of the part's root, then declaration by
     declaration down to `el`: a:xfrm, c:ser, c:tx... have several types), provided its present children are in order."""
